@@ -265,12 +265,12 @@ Definition as_list (r : pres) : list tok := pr_as_list r.
 Definition copy (r : pres) : pres := pr_copy r.
 Fixpoint tok_deepcopy (t : tok) : tok :=
   match t with
-  | TPR r => TPR (PR (map tok_deepcopy (toks r)) (dict r) (allnames r) (rname r) true)
+  | TPR r => TPR (PR (map tok_deepcopy (toks r)) (dict r) (names_union [] (allnames r)) (rname r) true)
   | TList l => TList (map (fun v => match v with TPR _ => tok_deepcopy v | other => other end) l)
   | other => other
   end.
 Definition deepcopy (r : pres) : pres :=
-  PR (map tok_deepcopy (toks r)) (dict r) (allnames r) (rname r) true.
+  PR (map tok_deepcopy (toks r)) (dict r) (names_union [] (allnames r)) (rname r) true.
 
 (* ---- pickle protocol ---- *)
 Definition pstate := (list tok * (list (str * list (tok * Z)) * list str * option str))%type.
